@@ -950,7 +950,12 @@ impl JitCompiler {
                             if let Some(helper) = helpers.get(&(insn.imm as u32)) {
                                 // We reserve RCX for shifts
                                 self.emit_mov(mem, R9, RCX);
+                                // R10 holds the pointer to mem and is caller-saved
+                                self.emit_push(mem, R10);
+                                self.emit_push(mem, R10);
                                 self.emit_call(mem, *helper as usize);
+                                self.emit_pop(mem, R10);
+                                self.emit_pop(mem, R10);
                             } else {
                                 Err(Error::other(
                                     format!(
